@@ -845,6 +845,7 @@ func runConc(in *Input) lib.Case {
 	}
 	sendsBy := make([][]bool, len(all))
 	var got []delivered
+	var wireSeen []byte
 	crash := ""
 	switch in.Level {
 	case "conn":
@@ -863,7 +864,8 @@ func runConc(in *Input) lib.Case {
 			}(g)
 		}
 		wg.Wait()
-		o := receiveConn(cutSegments(cap.wrote.Bytes(), nil, 997), pl)
+		wireSeen = append([]byte{}, cap.wrote.Bytes()...)
+		o := receiveConn(cutSegments(wireSeen, nil, 997), pl)
 		got, crash = o.delivered, o.crash
 	case "tcp":
 		var dl []delivered
@@ -961,7 +963,13 @@ func runConc(in *Input) lib.Case {
 		rows = append(rows, natList(r))
 	}
 	ch := &chunker{fills: pl.ctx.fills}
-	coq := fmt.Sprintf("CConc %s [%s] %s %s %s %s", pl.coq(ch), strings.Join(rows, "; "), boolList(sends), natList(dIdx), coqBool(valeq), coqBool(crash != ""))
+	owire := "None"
+	if in.Level == "conn" {
+		chw := &chunker{fills: pl.ctx.fills, pool: pl.entries}
+		owire = "(Some " + chw.encode(wireSeen) + ")"
+	}
+	coq := fmt.Sprintf("CConc %s [%s] %s %d%%N %s %s %s %s", pl.coq(ch), strings.Join(rows, "; "), boolList(sends),
+		uint32(network.MaxPacketSize), owire, natList(dIdx), coqBool(valeq), coqBool(crash != ""))
 	obs := map[string]interface{}{"senders": len(all), "sent": total, "delivered": describeDelivered(got), "values_equal": valeq}
 	if crash != "" {
 		obs["crash"] = crash
